@@ -771,6 +771,17 @@ pub fn run_c02(tier: &str, sink: &Sink) -> (EngA, AOut) {
         }
         i += step;
     }
+    // sides spelled loosely / with unparseable tokens (they parse, so they are within C02's premise)
+    for (op, p) in e.core.iter().step_by(5) {
+        let prog = prog_single(*op, p);
+        texts.push(format!("foo {}", render(&prog, &[])));
+        texts.push(format!("{} 1.2.3.4", render(&prog, &[])));
+        for d in sites(&prog) {
+            if matches!(d, Dev::VPrefix { .. } | Dev::OpGap { .. } | Dev::LeadZero { .. } | Dev::NoTagHyphen { .. }) {
+                texts.push(render(&prog, &[d]));
+            }
+        }
+    }
     texts.sort();
     texts.dedup();
     let sides: Vec<Side> = texts.par_iter().filter_map(|t| e.side(t)).collect();
@@ -894,6 +905,17 @@ impl EngA {
                     let v = &u.vs[i];
                     let clause = if !is_pre(v) { "release" } else if sat.get(i) { "gate-closed" } else { "gate-open" };
                     sink.report(clause, format!("text={}|v={}", text, vtext(v)), case(), format!("satisfies={}", sat.get(i)), format!("{} (within the crate's bounds of an alternative: {}, written tag on the same triple there: {})", expected.get(i), expected.get(i) || !sat.get(i), expected.get(i)));
+                }
+                // resolver-style use: the highest / lowest universe version picked by max/min_satisfying
+                // is the highest / lowest version the gate oracle admits
+                if let (Ok(mx), Ok(mn)) = (guarded(|| r.max_satisfying(&u.vs).cloned()), guarded(|| r.min_satisfying(&u.vs).cloned())) {
+                    let want_max = (0..u.len()).rev().find(|i| expected.get(*i));
+                    let want_min = expected.first();
+                    let okx = match (&mx, want_max) { (None, None) => true, (Some(v), Some(i)) => req(v, &u.vs[i]), _ => false };
+                    let okn = match (&mn, want_min) { (None, None) => true, (Some(v), Some(i)) => req(v, &u.vs[i]), _ => false };
+                    if !okx || !okn {
+                        sink.report("resolver", format!("text={}|v={}", text, mx.as_ref().map(vtext).unwrap_or("-".into())), case(), format!("max_satisfying={:?} min_satisfying={:?}", mx.as_ref().map(vtext), mn.as_ref().map(vtext)), format!("max={:?} min={:?}", want_max.map(|i| vtext(&u.vs[i])), want_min.map(|i| vtext(&u.vs[i]))));
+                    }
                 }
                 // build metadata on the version never changes the answer
                 for (i, v) in u.vs.iter().enumerate() {
